@@ -221,6 +221,14 @@ def run(tier: str) -> Run:
                 for key, v in flat(o.value):
                     if v.dtype != expect:
                         verdicts.append({'key': key, 'dtype': v.dtype, 'expected': expect})
+                if expect == 'float64':
+                    # documented double precision: a float32 angle is widened before the trigonometric function is evaluated
+                    # (all kernels do; evaluating it in float32 leaves ~3e-8 in a result labelled float64 - defect F11).
+                    # Arithmetic on a float32 operand in its own precision (Ltotal**2) is the operand's rounding and not judged.
+                    low = sorted({op for key, v in flat(o.value) for _, op, d in v.hist
+                                  if d == 'float32' and op in ('sin', 'cos', 'tan', 'asin', 'acos', 'atan', 'atan2', 'exp', 'log')})
+                    if low:
+                        verdicts.append({'single_precision_operations': low, 'result_dtype': 'float64'})
                 for e in events(o, 'int-unit-conversion'):
                     verdicts.append({'integer_unit_conversion': e.detail, 'where': e.where})
                 for e in events(o, 'narrowing-cast'):
@@ -233,7 +241,7 @@ def run(tier: str) -> Run:
             if na and not verdicts:
                 r4.ok(inst, {'verdict': 'n/a: scipp has no arithmetic for this combination'}, nontrivial=False)
                 continue
-            fkey = f'{mod}:{name}:' + (verdicts[0].get('raises') or ('cast' if 'narrowing_cast' in verdicts[0] else 'int-unit' if 'integer_unit_conversion' in verdicts[0] else 'dtype')) if verdicts else inst
+            fkey = f'{mod}:{name}:' + (verdicts[0].get('raises') or ('cast' if 'narrowing_cast' in verdicts[0] else 'int-unit' if 'integer_unit_conversion' in verdicts[0] else 'f32-op' if 'single_precision_operations' in verdicts[0] else 'dtype')) if verdicts else inst
             # one finding per kernel and failure kind, not per grid point
             r4.check(not verdicts, inst, loc(fi), {'problems': verdicts[:2], 'expected': expect}, key=fkey)
     run.extra['dtype_grid_points'] = n_grid
